@@ -21,8 +21,8 @@ theorem foldl_nodesAt (j : Nat) : ∀ (l : List (Nat × Nd)) (acc : List Nat),
     intro acc
     simp only [List.foldl_cons, ih]
     by_cases h : p.2.lvl = j
-    · simp [h, List.filter_cons]
-    · simp [h, List.filter_cons]
+    · simp [h]
+    · simp [h]
 
 theorem nodesAt_eq (t : Tbl) (j : Nat) :
     nodesAt t j = (t.succ.toList.filter (fun p => decide (p.2.lvl = j))).map (·.1) := by
@@ -115,7 +115,7 @@ theorem takeSwapOrders_spec (x y : Nat) (m : Mgr) :
     cases it with
     | sift names => exact rfl
     | swap lv =>
-      simp only [M.set_eq]
+      simp only
       by_cases hp : (isPerm ((lv.lookup x).getD []) (nodesAt m.tbl x) &&
           isPerm ((lv.lookup y).getD []) (nodesAt m.tbl y)) = true
       · rw [if_pos hp]
